@@ -7,6 +7,7 @@ INVARIANT OrderMatters
 INVARIANT KeyMatters
 INVARIANT SingleKeyV21
 INVARIANT TableLen
+INVARIANT HashOfTable
 INVARIANT BlockLen
 INVARIANT FreshSignature
 INVARIANT ParsedIsBuilt
